@@ -832,7 +832,7 @@ fn run_real(id: u16, direct: bool, out: &mut Vec<Violation>) {
     }
 }
 
-pub const N_REAL: u16 = 24;
+pub const N_REAL: u16 = 26;
 
 /// Thorough tier: larger argument alphabets in the real-kernel scenarios.
 static THOROUGH: std::sync::atomic::AtomicBool = std::sync::atomic::AtomicBool::new(false);
@@ -2073,6 +2073,65 @@ fn run_real_inner(id: u16, direct: bool) -> Vec<Violation> {
             if blocked(libc::SIGUSR1) || blocked(libc::SIGUSR2) {
                 out.push(v(&format!("real/signals/{kind}"), "the signals are still blocked after Signals was dropped".into()));
             }
+        }
+        // A direct descriptor dropped while the submission queue is full (closed synchronously): exactly it is closed.
+        24 => {
+            if direct {
+                return out;
+            }
+            let [r, w] = block_on(&mut ring, a10::pipe::pipe(sq.clone()).kind(FdKind::Direct)).expect("direct pipe");
+            let mut zeros = Vec::new();
+            for _ in 0..2 {
+                zeros.push(block_on(&mut ring, a10::fs::OpenOptions::new().kind(FdKind::Direct).open(sq.clone(), PathBuf::from("/dev/zero"))).expect("open /dev/zero"));
+            }
+            // Fill the submission queue with clean-up requests that are not submitted yet.
+            let mut n = 0;
+            loop {
+                let fd = unsafe { libc::open(c"/dev/null".as_ptr(), libc::O_RDONLY | libc::O_CLOEXEC) };
+                drop(unsafe { AsyncFd::from_raw_fd(fd, sq.clone()) });
+                n += 1;
+                if n >= 16 {
+                    break;
+                }
+            }
+            drop(w);
+            ring.poll(Some(Duration::from_millis(10))).unwrap();
+            for (i, z) in zeros.iter().enumerate() {
+                let got = block_on(&mut ring, z.read(Vec::with_capacity(4)));
+                if got.as_ref().ok().map(|b| b.len()) != Some(4) {
+                    out.push(v("real/direct-drop-full-queue", format!("another direct descriptor (#{i}) stopped working after the pipe's write end was dropped with a full queue: {got:?}")));
+                }
+            }
+            // close(2) of the write end gives the reader end-of-file.
+            let mut res = None;
+            {
+                let mut fut = Box::pin(r.read(Vec::with_capacity(4)));
+                let wk = HWaker::new(1);
+                let mut cx = Context::from_waker(&wk.waker);
+                for _ in 0..100 {
+                    if let Poll::Ready(x) = fut.as_mut().poll(&mut cx) {
+                        res = Some(x);
+                        break;
+                    }
+                    ring.poll(Some(Duration::from_millis(5))).unwrap();
+                }
+                if res.is_none() {
+                    // Still in flight: its memory must stay.
+                    std::mem::forget(fut);
+                }
+            }
+            match res {
+                Some(Ok(b)) if b.is_empty() => {}
+                other => {
+                    out.push(v("real/direct-drop-full-queue", format!("the pipe's write end (a direct descriptor) was dropped with a full queue, reading the other end gives {other:?} instead of end-of-file")));
+                    std::mem::forget(r);
+                    std::mem::forget(zeros);
+                    std::mem::forget(ring);
+                    return out;
+                }
+            }
+            drop(zeros);
+            drop(r);
         }
         // Descriptor conversions and close.
         _ => {
